@@ -12,7 +12,7 @@ from hypothesis import strategies as st
 from vfw.core import Ctx, Violation, canon, jsonable
 
 PROPERTY = "C16"
-SIZES = {"quick": 1600, "thorough": 30000}
+SIZES = {"quick": 3200, "thorough": 30000}
 RULE = (
     "Hypothesis RuleBasedStateMachine: a dataset with a pool of 10 metric variables (two axis sets {X} and {X,Y}; several "
     "positions, two variables per some positions so that overwriting is meaningful); rules: construct(metrics=...) once, "
